@@ -13,7 +13,8 @@ THEOREMS = ["Rspirv.Props.C10.C10_literal", "Rspirv.Props.C10.litOne_spec", "Rsp
             "Rspirv.Props.C10.track_inert", "Rspirv.Props.C10.C10_solely", "Rspirv.Props.C10.track_shape",
             "Rspirv.Props.C10.track_eq_binding", "Rspirv.Props.C10.C10_extensional", "Rspirv.Props.C10.C10_extensional_run",
             "Rspirv.Props.C10.C10_newest_wins", "Rspirv.Props.C10.C10_decl_reaches",
-            "Rspirv.Props.C10.trackAll_snoc", "Rspirv.Props.C10.parseLoop_eq_D", "Rspirv.Props.C10.C10_parse_D"]
+            "Rspirv.Props.C10.trackAll_snoc", "Rspirv.Props.C10.parseLoop_eq_D", "Rspirv.Props.C10.C10_parse_D",
+            "Rspirv.Props.C10.C10_switch_uses_selector"]
 NEEDS = ("header", "core", "decode", "operand_enum", "asm_arms", "parse_operand", "operands")
 WIDTHS = [8, 16, 32, 64, 64, 32, 1, 7, 9, 24, 31, 33, 48, 63, 65, 128, 0, 0x7fffffff, 0x80000000, 0xffffffe0, 0xffffffe1, 0xffffffff]
 
